@@ -2181,6 +2181,8 @@ template< size_t L>
    FixedString< L>& FixedString< L>::insert( size_t index,
       const std::string& str, size_t index_str, size_t count) noexcept
 {
+   if (index_str > str.length())
+      return *this;
    return insert( index, str.substr( index_str, count));
 } // FixedString< L>::insert
 
